@@ -22,6 +22,7 @@ import (
 	"sort"
 	"strings"
 
+	"github.com/tikv/pd/server/core"
 	"verif/harness/lib/ev"
 )
 
@@ -46,39 +47,70 @@ func (w *world) apply(o op) (a applied) {
 			a.fail = &failure{Class: "panic:" + o.Kind + "-region", What: fmt.Sprintf("pd panicked in %s: %v", o.Kind, x), Got: tailStack()}
 		}
 	}()
-	switch o.Kind {
-	case "set":
-		sp := o.Spec
-		info := sp.build()
-		if info.GetApproximateSize() != sp.Size {
-			panic(fmt.Sprintf("harness: built region has size %d, spec says %d", info.GetApproximateSize(), sp.Size))
-		}
-		old := w.m.get(sp.ID)
-		n := &entry{spec: sp, info: info}
-		displaced := w.m.set(n)
-		got := w.bc.PutRegion(info)
-		a.displaced, a.start, a.end, a.id = len(displaced), sp.Start, sp.End, sp.ID
+	touch := func(sp *regionSpec) {
 		for _, p := range sp.Peers {
 			a.stores[p.Store] = true
 		}
-		for _, d := range displaced {
-			for _, p := range d.spec.Peers {
-				a.stores[p.Store] = true
+	}
+	switch o.Kind {
+	case "set":
+		sp := o.Spec
+		var cur *core.RegionInfo
+		if sp.Via == "clone" {
+			// get - edit - set: the object comes out of the cache through a getter
+			if cur = w.bc.GetRegion(sp.CloneFrom); cur != nil && len(w.m.es)%2 == 0 {
+				if r := w.bc.SearchRegion(cur.GetStartKey()); r != nil && r.GetID() == sp.CloneFrom {
+					cur = r
+				}
 			}
 		}
-		if !w.sameSet(got, displaced) {
+		info := sp.build(cur)
+		if sigInfo(info) != sigSpec(sp) {
+			g, x := canonInfo(info), canonSpec(sp)
+			if cur == nil {
+				panic(fmt.Sprintf("harness: built region %s, spec says %s", g, x))
+			}
+			a.fail = &failure{Class: "derived-region-object-differs", What: "a region derived from a cached object with Clone(options) does not say what the options ask for", Got: g, Want: x}
+			return
+		}
+		old := w.m.get(sp.ID)
+		var got []*core.RegionInfo
+		if o.API == "check" {
+			got = w.bc.CheckAndPutRegion(info)
+			if len(got) == 1 && got[0] == info {
+				// rejected as stale: nothing may have changed (the following comparisons tell)
+				a.shape = "rejected-stale"
+				a.start, a.end = sp.Start, sp.End
+				w.count("puts_rejected_stale", 1)
+				return
+			}
+			w.count("puts_through_check", 1)
+		} else {
+			got = w.bc.PutRegion(info)
+		}
+		n := &entry{spec: sp, info: info}
+		displaced := w.m.set(n)
+		a.displaced, a.start, a.end, a.id = len(displaced), sp.Start, sp.End, sp.ID
+		touch(sp)
+		for _, d := range displaced {
+			touch(d.spec)
+			w.hold(d)
+		}
+		if cur != nil {
+			w.count("puts_of_cloned_objects", 1)
+		}
+		if !(&judger{m: w.m, cnt: w.cnt}).sameSet(got, displaced) {
 			a.fail = &failure{Class: "put-region-returned-overlaps", What: fmt.Sprintf("PutRegion(%s) returned a set of overlapped regions that differs from the other regions intersecting its range", sp),
 				Got: descInfos(got), Want: descEntries(displaced)}
 		}
 		// abstract shape of the case (distinctness key)
-		sh := []string{strings.SplitN(o.Note, ":", 2)[0], fmt.Sprintf("disp%d", minInt(len(displaced), 5)), "via" + sp.Via}
+		sh := []string{strings.SplitN(o.Note, ":", 2)[0], fmt.Sprintf("disp%d", minInt(len(displaced), 5)), "via" + sp.Via, "api" + o.API}
 		if old == nil {
 			sh = append(sh, "new-id")
 		} else {
 			os := old.spec
-			for _, p := range os.Peers {
-				a.stores[p.Store] = true
-			}
+			touch(os)
+			w.hold(old)
 			if os.Start != sp.Start || os.End != sp.End {
 				sh = append(sh, "range-changed")
 				if overlap(os.Start, os.End, sp.Start, sp.End) {
@@ -119,11 +151,10 @@ func (w *world) apply(o op) (a applied) {
 		}
 		cur := w.bc.GetRegion(o.ID)
 		a.start, a.end, a.id = x.spec.Start, x.spec.End, 0
-		for _, p := range x.spec.Peers {
-			a.stores[p.Store] = true
-		}
+		touch(x.spec)
 		w.m.remove(o.ID)
-		if !w.same(cur, x) {
+		w.hold(x)
+		if !(&judger{m: w.m, cnt: w.cnt}).same(cur, x) {
 			a.fail = &failure{Class: "lookup-by-id", What: fmt.Sprintf("GetRegion(%d) differs from the model before removal", o.ID), Got: descInfo(cur), Want: descEntry(x)}
 			if cur == nil {
 				return
@@ -132,7 +163,22 @@ func (w *world) apply(o op) (a applied) {
 		w.bc.RemoveRegion(cur) // removal with the current information, as the code base does
 		a.shape = fmt.Sprintf("remove,peers%d,pending%d", len(x.spec.Peers), minInt(len(x.spec.Pending), 1))
 	}
+	// the server refreshes the statistics in the store records of the stores involved
+	for s := uint64(1); s <= 8; s++ {
+		if a.stores[s] {
+			w.refresh(s)
+		}
+	}
 	return
+}
+
+// refresh publishes a store's current statistics into its store record, the way the server does
+// after a region change (RaftCluster.updateStoreStatusLocked).
+func (w *world) refresh(s uint64) {
+	bc := w.bc
+	bc.UpdateStoreStatus(s, bc.GetStoreLeaderCount(s), bc.GetStoreRegionCount(s), bc.GetStorePendingPeerCount(s),
+		bc.GetStoreLeaderRegionSize(s), bc.GetStoreRegionSize(s))
+	w.m.sinfo[s] = w.m.stat(s)
 }
 
 func tailStack() string {
@@ -269,8 +315,11 @@ func (p *prober) cheap(w *world, a applied) []*probe {
 	ps := []*probe{{Kind: "counts"}, {Kind: "avg"}}
 	for s := uint64(1); s <= 8; s++ {
 		if a.stores[s] || p.rng.Intn(4) == 0 {
-			ps = append(ps, &probe{Kind: "store", Store: s})
+			ps = append(ps, &probe{Kind: "store", Store: s}, &probe{Kind: "storeinfo", Store: s})
 		}
+	}
+	if a.id != 0 {
+		ps = append(ps, &probe{Kind: "content", ID: a.id})
 	}
 	return ps
 }
@@ -361,7 +410,7 @@ func (p *prober) randTarget(w *world) (string, uint64, [][2]hexkey) {
 func (p *prober) full(w *world, complete bool) []*probe {
 	ps := []*probe{{Kind: "counts"}, {Kind: "avg"}, {Kind: "ids", MaxID: p.g.prof.MaxID}}
 	for s := uint64(1); s <= 9; s++ { // 9: a store that never has peers
-		ps = append(ps, &probe{Kind: "store", Store: s}, &probe{Kind: "storeset", Store: s})
+		ps = append(ps, &probe{Kind: "store", Store: s}, &probe{Kind: "storeset", Store: s}, &probe{Kind: "storeinfo", Store: s})
 	}
 	keys := p.keys
 	if maxk := map[bool]int{true: 200, false: 30}[complete]; len(keys) > maxk {
@@ -656,14 +705,14 @@ func profiles(r *ev.Run, rng *rand.Rand) []profile {
 	near := r.Pick(4, 1) // lookups around the touched range: quick every 4th operation, thorough every one
 	small := func(ops, full, complete int) func() profile {
 		return func() profile {
-			return profile{Name: "small", Keys: 6 + rng.Intn(19), MaxID: 40, Ops: ops, Prefill: rng.Intn(3) == 0, Stores: 8, Density: density(),
+			return profile{Name: "small", Keys: 6 + rng.Intn(19), MaxID: 40, Ops: ops, Prefill: rng.Intn(3) == 0, Stores: 8, Density: density(), MacroEach: 300,
 				NearEach: near, FullEach: full, CompleteEach: complete}
 		}
 	}
 	medium := func(ops, full, complete int) func() profile {
 		return func() profile {
 			k := 40 + rng.Intn(80)
-			return profile{Name: "medium", Keys: k, MaxID: uint64(k + 30), Ops: ops, Prefill: rng.Intn(2) == 0, Stores: 4 + rng.Intn(5), Density: density(),
+			return profile{Name: "medium", Keys: k, MaxID: uint64(k + 30), Ops: ops, Prefill: rng.Intn(2) == 0, Stores: 4 + rng.Intn(5), Density: density(), MacroEach: 400,
 				NearEach: near, FullEach: full, CompleteEach: complete}
 		}
 	}
@@ -671,7 +720,7 @@ func profiles(r *ev.Run, rng *rand.Rand) []profile {
 		return func() profile {
 			// few stores: the per-store sub-indexes then hold hundreds of regions (multi-level btree)
 			k := 300 + rng.Intn(400)
-			return profile{Name: "large", Keys: k, MaxID: uint64(k + 100), Ops: ops, Prefill: true, Stores: 2 + rng.Intn(3), Density: 0.6,
+			return profile{Name: "large", Keys: k, MaxID: uint64(k + 100), Ops: ops, Prefill: true, Stores: 2 + rng.Intn(3), Density: 0.6, MacroEach: 500,
 				NearEach: near, FullEach: full, CompleteEach: complete}
 		}
 	}
@@ -712,10 +761,15 @@ func main() {
 		seeds[i] = rng.Int63()
 	}
 	btSeed := rng.Int63()
+	concSeed := btSeed ^ 0x5bd1e995
 	ok := true
 	if r.Thorough() || r.Shard == 0 {
 		// first, so that a broken index structure is named as such before region histories trip over it
 		ok = btreePhase(r, rand.New(rand.NewSource(btSeed)))
+	}
+	if ok {
+		// readers against one write stream / against concurrent cache drops (see conc.go)
+		ok = concPhase(r, rand.New(rand.NewSource(concSeed)))
 	}
 	for i, prof := range profs {
 		if !ok {
